@@ -4,6 +4,7 @@ CONSTANTS
     Loop = "alias"
     Family = "accum"
     Tier = "quick"
+    Reporter = "contract"
     EmitOn = FALSE
 INIT Init
 NEXT Next
